@@ -7,10 +7,13 @@ from pyerr import canon_call
 
 PROP = 'C08'
 COQ_TARGETS = ['theories/NpciFacts.vo', 'theories/NpciMsgFacts.vo', 'theories/NpciSound.vo', 'theories/NpciBodyFacts.vo',
-               'theories/NpciRegistry.vo', 'theories/NpciReenc.vo']
+               'theories/NpciRegistry.vo', 'theories/NpciReenc.vo',
+               # the codec methods translated from npdu.py on this run (gen/NpciFns.v) = the hand model, for all inputs
+               'theories/NpciGenFacts.vo', 'theories/NpciGenEnc.vo', 'theories/NpciGenDec.vo', 'theories/NpciGen.vo']
 TABLE_OBLIGATIONS = ['NpciRegistry.registry_table_exact', 'NpciRegistry.registry_keys', 'NpciRegistry.registry_message_type',
                      'NpciRegistry.registry_ctor_message', 'NpciRegistry.registry_fields_arity', 'NpciRegistry.registry_nodup',
-                     'NpciRegistry.registry_dispatch', 'NpciRegistry.registry_class']
+                     'NpciRegistry.registry_dispatch', 'NpciRegistry.registry_class',
+                     'NpciGenFacts.address_codes', 'NpciGenFacts.message_type_constants']
 COQ_IMPORTS = 'From Bac Require Import Base Npci.'
 RULE = ('cases: NPDU.encode over expecting-reply x priority 0..3 x DADR {none, station 1/6/255 octets, remote broadcast, global} x '
         'SADR {none, station 1/6/255} x hop {0,1,254,255} x message {none, 0, 0x13, 0x7f, 0x80+vendor, 0xff+vendor} (quick: hop cycled, '
@@ -25,8 +28,14 @@ RULE = ('cases: NPDU.encode over expecting-reply x priority 0..3 x DADR {none, s
         '(reserved bits 6 and 4 included) x address / hop / message shapes: plain, router forward (deepcopy, hop count - 1, SADR filled in, '
         'DADR stripped on the last leg), message object decoded through the registry and encoded again.  non-trivial = encode input with at least one optional field / parameter, or decode input of >= 3 octets; '
         'distinct by (operation, input).')
-TRUSTED = ['translator/gen_npdu.py: npdu.npdu_types, messageType, constructor message type, _debug_contents -> coq/gen/NpduRegistry.v (table obligations in NpciRegistry.v)',
-           'model coq/theories/Npci.v written by hand after npdu.py:76-204,263-269,318-798 and comm.py PDUData; tie = in-kernel correspondence on every run',
+TRUSTED = ['translator/gen_npcifns.py: AST translation of the bodies of NPCI.encode/decode, NPDU.encode/decode and the 12 message classes\' encode/decode (npdu.py) '
+           '-> coq/gen/NpciFns.v over the vocabulary coq/theories/NpciRt.v (objects as records, PDUData put/get lifted to objects, req = TypeError on None); fail-closed; '
+           'trusted parts: the constructor mapping RemoteStation/RemoteBroadcast/GlobalBroadcast -> RStation/RBroadcast/GBroadcast (pdu.py constructors not translated), '
+           'the skip allow-list (`if _debug:`, docstrings, PCI.update / NPCI.update), the attribute types declared in gen_npcifns.FIELDS, while-loop fuel 1 + len(pduData); '
+           'NpciGenFacts/NpciGenEnc/NpciGenDec/NpciGen.v prove translated = hand model for all inputs on every run',
+           'translator/gen_npdu.py: npdu.npdu_types, messageType, constructor message type, _debug_contents -> coq/gen/NpduRegistry.v (table obligations in NpciRegistry.v)',
+           'model coq/theories/Npci.v written by hand after npdu.py:76-204,263-269,318-798 and comm.py PDUData; tie = equality with the translated methods (above) + in-kernel correspondence on every run; '
+           'comm.py PDUData (put/get octet primitives of Base.v), pdu.py address constructors and netservice.py forwarding (reenc_fwd) remain hand-modelled, tied by correspondence only',
            'spec6_2 (Npci.v) and the harness reference layout/parser ref_layout/ref_parse are independent transcriptions of clause 6.2 (figure 6-1, 6.2.2)']
 ASSUMPTIONS = ['bytes/bytearray hold octets < 256 (CPython)',
                'header fields are non-negative ints or None (negative ints are not modelled)',
